@@ -77,7 +77,7 @@ def run_tlc(module, cfg, env=None, workers=16, simulate=None, timeout=1500,
     cmd = ["java", "-XX:+UseParallelGC", "-Xmx" + heap, "-Xss64m", "-cp", TLA_CP, "tlc2.TLC",
            "-workers", str(workers), "-metadir", meta, "-noGenerateSpecTE",
            "-config", cfg]
-    if coverage:
+    if coverage or (os.environ.get("VERIF_TIER_NOW") == "thorough" and not simulate and "Trace" not in module):
         cmd += ["-coverage", "1"]
     if simulate:
         cmd += ["-simulate", simulate]
@@ -104,6 +104,10 @@ def run_tlc(module, cfg, env=None, workers=16, simulate=None, timeout=1500,
     if m:
         r.depth = int(m.group(1))
     r.prints = parse_prints(out)
+    for m in re.finditer(r"^<(\w+) line (\d+), col \d+ to line \d+, col \d+ of module (\w+)(?: \([\d ]+\))?>: (\d+):(\d+)\s*$", out, re.M):
+        key = "%s.%s@%s" % (m.group(3), m.group(1), m.group(2))
+        d, t = r.coverage.get(key, (0, 0))
+        r.coverage[key] = (d + int(m.group(4)), t + int(m.group(5)))
     if "Model checking completed. No error has been found." in out or (
             simulate and "Error:" not in out and p.returncode == 0):
         r.ok = True
@@ -344,7 +348,10 @@ class Report:
         self.cov["tlc_runs"].append({"name": name, "distinct_states": r.distinct,
                                      "states_generated": r.generated, "depth": r.depth,
                                      "wall_s": round(r.wall, 1),
-                                     **({"instance": exhaustive_note} if exhaustive_note else {})})
+                                     **({"instance": exhaustive_note} if exhaustive_note else {}),
+                                     **({"action_coverage": {k: v[1] for k, v in sorted(r.coverage.items())},
+                                         "actions_never_taken": sorted(k for k, v in r.coverage.items() if v[1] == 0)}
+                                        if r.coverage else {})})
 
     def sample(self, s, limit=6):
         if len(self.cov["samples"]) < limit:
